@@ -494,7 +494,8 @@ def cases(rng, tier):
     # a body whose rest arrives late: the caller stops early (one read1 as large as it likes, read(k) within what has arrived, release, keep,
     # close), the next requests read everything
     for first in (0, 1, 3):
-        for c in (["read1", 1], ["read1", 3], ["read1", 64], ["read1", 1000], ["read_k", 1], ["release"], ["keep"], ["close"]):
+        for c in (["read1", 1], ["read1", 3], ["read1", 64], ["read1", 1000], ["read1", LATE_TAIL], ["read1", LATE_TAIL + first], ["read1", LATE_TAIL + 1],
+                  ["read_k", 1], ["release"], ["keep"], ["close"]):
             if c[0] == "read_k" and first == 0:
                 continue
             for maxsize in (1, 2):
